@@ -244,10 +244,10 @@ def findBetween (last : Bool) (value sub start finish : Val) : Res Val := do
          | some _ => errValue))
     | .panic => .panic "Decimal(NaN).Int64()"
     | .unmodelled => .unmodelled "strconv.ParseFloat on a hexadecimal literal")
+  let j ← intArg finish
   match startOffset s i with
   | none => pure .null
   | some i => do
-    let j ← intArg finish
     match finishOffset s j with
     | none => pure .null
     | some j =>
